@@ -135,8 +135,10 @@ USER_KINDS = {
     'callsite-user-without-login': (False, False, None, False),         # documented refusal: EmptyLoginID
     'callsite-developer-and-service-account': (True, True, 'login-id', False),  # documented refusal: MultipleUserTypes
 }
-CREATING_KINDS = [k for k, v in USER_KINDS.items() if v[3]]
+CREATING_KINDS = ['callsite', 'callsite-service-account', 'callsite-service-account-with-login']  # run on EVERY enumerated username
+SHORT_CREATING_KINDS = ['callsite-developer']  # is_developer only matters to MultipleUserTypes: usernames up to length L-1
 REFUSED_KINDS = [k for k, v in USER_KINDS.items() if not v[3]]
+assert set(CREATING_KINDS + SHORT_CREATING_KINDS + REFUSED_KINDS) == set(USER_KINDS)
 
 
 def real_accepts(which, via, v):
@@ -252,6 +254,8 @@ def _shard(arg):
         for via in CREATING_KINDS:  # every enumerated username x every user kind that can be created
             judge(acc, 'username', via, s, uw, key, s)
         if len(s) <= callsite_len:
+            for via in SHORT_CREATING_KINDS:
+                judge(acc, 'username', via, s, uw, key, s)
             for via in REFUSED_KINDS:  # must never store anything, valid username or not
                 judge(acc, 'username', via, s, False, key, s)
             judge(acc, 'secret-name', 'callsite', s, sw, key, s)
@@ -353,7 +357,7 @@ def check(tier, seed, procs):
                 'nearest non-members (misplaced/doubled separators, one foreign character such as LF, NUL, uppercase, non-ASCII) - counted on this run',
         'samples': samples + [{'nonstr': NONSTR[0][0]}, {'string': 'a\n'}],
         'exhaustive': True,
-        'bounds': f'all strings of length <= {L} over {ALPHABET!r} for the two validators; the same strings as usernames through insert_new_user for user kinds {CREATING_KINDS}; length <= {cs} for the always-refused kinds {REFUSED_KINDS} and for secret names through insert_new_user; {len(NONSTR)} non-str values',
+        'bounds': f'all strings of length <= {L} over {ALPHABET!r} for the two validators; the same strings as usernames through insert_new_user for user kinds {CREATING_KINDS}; length <= {cs} for {SHORT_CREATING_KINDS}, the always-refused kinds {REFUSED_KINDS} and for secret names through insert_new_user; {len(NONSTR)} non-str values',
         'strings': c.get('strings', 0),
         'valid_usernames_in_space': c.get('valid-usernames', 0),
         'valid_secret_names_in_space': c.get('valid-secret-names', 0),
